@@ -14,7 +14,7 @@ MANIFEST = {
             'minimum for every variant decoder; this holds for the one-byte replays and the UTF-16 two-byte replay and FAILS for the UTF-8 '
             'two-byte replay (single-byte encodings, x-user-defined): a genuine defect, recorded as a known finding. Not decided: implicit '
             'bounds-check / overflow panics of checked indexing and arithmetic on all inputs, numerical exactness.  (R-UTF8ENC) the hand-written UTF-8 to UTF-8 encoder copies the longest prefix that fits and ends on a character boundary: the whole input with (InputEmpty, n, n) when it fits; otherwise the boundary search starts at exactly dst.len(), steps back by one over continuation bytes only, and the cut t is both what is copied (dst[..t] <- src[..t]) and what is reported (OutputFull, t, t). ' 
-            '(R-DIM) dimension inference over the index arithmetic of the 40-odd slice-to-slice converter bodies (mem, utf_8, ascii, single_byte, x_user_defined, the unaligned UTF-16 helpers): every usize quantity is a source position/length, a destination position/length, a count valid in both or a constant (least fixpoint over the loop-carried locals, seeded by which buffer a local indexes); no sum or difference mixes a source and a destination quantity, each buffer is indexed and re-sliced only with its own quantities, a (read, written) result returns a source quantity first and a destination quantity second, and a single local indexes both buffers only in the three 1:1 conversions (frozen with reasons). A path that advances a source position and returns has stored something or advanced the destination position (R-DIM.consume); inside a loop that walks a buffer with a loop-carried position every index into that buffer depends arithmetically on such a position, not on a count alone (R-DIM.relative, 266 index sites in handles/mem/utf_8/single_byte/ascii). (R-IDXSPACE) in five hand-written converters (convert_unaligned_utf16_to_utf8, convert_utf16_to_utf8_partial_inner/_tail, convert_utf8_to_utf16_up_to_invalid, mem::convert_latin1_to_utf8_partial) every bounds check of a checked store into the destination is implied by the space tests: facts X + a < dst.len() from the comparisons of a path (any operator and operand order, through locals like dst_len_minus_three), loop-head invariants by fixpoint, 20 checks; elsewhere implicit bounds-check panics remain undecided.',
+            '(R-DIM) dimension inference over the index arithmetic of the 40-odd slice-to-slice converter bodies (mem, utf_8, ascii, single_byte, x_user_defined, the unaligned UTF-16 helpers): every usize quantity is a source position/length, a destination position/length, a count valid in both or a constant (least fixpoint over the loop-carried locals, seeded by which buffer a local indexes); no sum or difference mixes a source and a destination quantity, each buffer is indexed and re-sliced only with its own quantities, a (read, written) result returns a source quantity first and a destination quantity second, and a single local indexes both buffers only in the three 1:1 conversions (frozen with reasons). A path that advances a source position and returns has stored something or advanced the destination position (R-DIM.consume); inside a loop that walks a buffer with a loop-carried position every index into that buffer depends arithmetically on such a position, not on a count alone (R-DIM.relative, 266 index sites in handles/mem/utf_8/single_byte/ascii). (R-IDXSPACE) in five hand-written converters (convert_unaligned_utf16_to_utf8, convert_utf16_to_utf8_partial_inner/_tail, convert_utf8_to_utf16_up_to_invalid, mem::convert_latin1_to_utf8_partial) every bounds check of a checked store into the destination is implied by the space tests: facts X + a < dst.len() from the comparisons of a path (any operator and operand order, through locals like dst_len_minus_three), loop-head invariants by fixpoint, 20 checks; elsewhere implicit bounds-check panics remain undecided. Also run here: the C10-D1 helper rules for the BOM replay helpers, i.e. the (result, read, written) they report.',
     'note': 'Trusted: rustc MIR and instance resolution, mirx, the rule library, the contract of the ASCII kernels (Some((unit, n)) => n < min(src.len(), dst.len())), &str validity at 11 frozen sites.',
     'technique': 'MIR typestate/dominance rules + available-expression dataflow for bounds facts + per-variant capacity/first-byte-write extraction',
 }
@@ -33,4 +33,7 @@ def run(rep, facts, tier):
         r_utf8enc.run(rep, f, c)
         n = r_idxspace.run(rep, f, c)
         rep.floor('R-IDXSPACE', 'destination bounds checks discharged', n, 20, c)
+        import p_c10
+        for sink in ('utf8', 'utf16'):
+            p_c10.helpers(rep, f, c, sink)     # (result, read, written) of the BOM replay helpers
     return ('other', MANIFEST['text'], [])
